@@ -875,8 +875,9 @@ func (o *Node) setNotFound(path Path, n *Node) error {
 		buf := rt.BytesFrom(rt.SubPtr(o.v, uintptr(4)), 4, 4)
 		size := int(thrift.BinaryEncoding{}.DecodeInt32(buf))
 		thrift.BinaryEncoding{}.EncodeInt32(buf, int32(size+1))
-		// add key bytes
-		key := path.ToRaw(n.t)
+		// add key bytes, encoded by the map's KEY type (header: kt, et, size), not the value's type
+		kt := thrift.Type(*(*byte)(rt.SubPtr(o.v, uintptr(6))))
+		key := path.ToRaw(kt)
 		src := n.raw()
 		buf = make([]byte, 0, len(key)+len(src))
 		buf = append(buf, key...)
